@@ -41,6 +41,8 @@ class H:
         self.vars = ['v0', 'v1']
         self.arrs = []
         self.in_loop = False
+        self.depth = 0
+        self.helpers = []
 
     def x(self):
         return 'x%d' % self.r.randrange(self.nargs)
@@ -176,12 +178,29 @@ class H:
             return [p + 'if (fb(%s) ?? %s) { write("S"); }' % (self.x(), self.r.choice(['true', 'false']))]
         if c < 0.9:
             return [p + '%s = @you(%s); write(%s); write(\' \');' % (self.vars[1], self.x(), self.vars[1])]
-        if c < 0.95:
+        if c < 0.94:
             self.n += 1
             a = 'a%d' % self.n
             self.arrs.append(a)
             return [p + 'int[] %s = [%s, %d];' % (a, self.x(), self.r.randrange(9))]
+        if c < 0.995 and self.depth == 0:
+            # episodes moved into a further you-function (the compiler generates functions lazily in first-use order,
+            # so which function first mentions a defeat function / contains the first try-stop varies)
+            return [p + self.you_helper()]
         return self.simples(ind, 1, 3)
+
+    def you_helper(self):
+        self.n += 1
+        name = '@ep%d' % self.n
+        sub = H(self.r, self.nargs)
+        sub.n, sub.depth = self.n + 100 * (1 + len(self.helpers)), 1
+        body = ['    int v0 = 0;', '    int v1 = 1;']
+        for _ in range(self.r.randrange(1, 4)):
+            body += sub.episode(1)
+        body.append('    write(\'{\'); write(v0); write(\' \'); write(v1); write(\'}\');')
+        params = ', '.join('int x%d' % i for i in range(self.nargs))
+        self.helpers.append((self.r.random() < 0.5, 'empty %s(%s) {\n' % (name, params) + '\n'.join(body) + '\n}\n'))
+        return '%s(%s);' % (name, ', '.join(self.r.choice(['x%d' % i for i in range(self.nargs)] + ['1', '3']) for _ in range(self.nargs)))
 
     def program(self):
         params = ', '.join('int x%d' % i for i in range(self.nargs))
@@ -192,7 +211,9 @@ class H:
         body.append('    for (int z = 0; z < ga.length; z += 1) { write(ga[z]); write(\' \'); }')
         for a in self.arrs:
             body.append('    write(%s[0]); write(%s[1]);' % (a, a))
-        return PRELUDE + 'empty @is_you(%s) {\n' % params + '\n'.join(body) + '\n}\n'
+        before = ''.join(h for b, h in self.helpers if b)
+        after = ''.join(h for b, h in self.helpers if not b)
+        return PRELUDE + before + 'empty @is_you(%s) {\n' % params + '\n'.join(body) + '\n}\n' + after
 
 
 def gen_history(seed, nargs=3):
@@ -227,6 +248,15 @@ DIRECTED_TT = [
     'empty @is_you(int a, int b) { try { !w(a); write("r"); !truth_is_defeat(b > 1); write("k"); } undo { write("U"); } try { !w(b); write("r2"); } stop { write("S"); } }\n',
     'empty !inner(int c) { !truth_is_defeat(c > 2); write("i"); }\nint !val(int c) { !inner(c); return c + 1; }\n'
     'int @pick(int c) { try { int y = !val(c); return y; } undo { write("u"); } return 0 - 1; }\nempty @is_you(int a, int b) { write(@pick(a)); write(@pick(b)); }\n',
+    # function-generation order: a defeat function first mentioned from a try/undo (or from another defeat function) and only
+    # later called under a try/stop that lives in a different you-function, declared before or after
+    'empty !check(int x) { !truth_is_defeat(x == 2); write("c"); write(x); }\nempty @guarded(int x) { try { !check(x); } stop { write("S"); write(x); } }\n'
+    'empty @is_you(int a, int b) { try { !check(a); } undo { write("U"); } @guarded(b); @guarded(a); write("."); }\n',
+    'empty !leaf(int x) { !truth_is_defeat(x > 1); write("l"); }\nempty !mid(int x) { write("m"); !leaf(x); }\n'
+    'empty @is_you(int a, int b) { try { !mid(a); write("1"); } undo { write("U"); } @late(b); @late(a); @later(a + b); }\n'
+    'empty @late(int x) { try { !leaf(x); write("2"); } stop { write("S"); } write(","); }\nint @later(int x) { try { !mid(x); return 1; } stop { write("T"); } return 0; }\n',
+    'int !v(int x) { if (x > 2) { !is_defeat(); } return x + 1; }\nint @a1(int x) { try { return !v(x); } undo { write("u"); } return 0 - 1; }\n'
+    'int @a2(int x) { try { return !v(x) * 2; } stop { write("s"); } return 0 - 2; }\nempty @is_you(int a, int b) { write(@a1(a)); write(@a1(b + 1)); write(@a2(a)); write(@a2(b + 1)); write(@a1(a + b)); }\n',
 ]
 
 
